@@ -288,6 +288,65 @@ Arguments start_send {K I}.
 Arguments send_all {K I}.
 Arguments addressed_to {K I}.
 
+
+(* ------------------------------------------------------------------ demux_map under back-pressure *)
+
+(* A member sink with a one-slot mailbox and a scripted readiness: `poll_ready` answers the next
+   script entry (Ready once the script is exhausted); a Ready answer means the receiver has taken
+   the mailbox content; `start_send` into an occupied mailbox overwrites (loses) the old message. *)
+Record msink := mkMS { ms_script : list bool; ms_slot : option N; ms_got : list N; ms_lost : N }.
+
+Definition ms_take (s : msink) : msink :=
+  match ms_slot s with
+  | Some x => mkMS (ms_script s) None (ms_got s ++ [x]) (ms_lost s)
+  | None => s
+  end.
+
+Definition ms_poll (s : msink) : msink * bool :=
+  match ms_script s with
+  | [] => (ms_take s, true)
+  | true :: r => (ms_take (mkMS r (ms_slot s) (ms_got s) (ms_lost s)), true)
+  | false :: r => (mkMS r (ms_slot s) (ms_got s) (ms_lost s), false)
+  end.
+
+Definition ms_send (s : msink) (x : N) : msink :=
+  mkMS (ms_script s) (Some x) (ms_got s) (match ms_slot s with Some _ => ms_lost s + 1 | None => ms_lost s end).
+
+Definition dstate := list (N * msink).
+
+(* DemuxMap::poll_ready: every member sink is polled; Ready only if ALL of them are ready *)
+Definition demux_poll (d : dstate) : dstate * bool :=
+  (map (fun km => (fst km, fst (ms_poll (snd km)))) d,
+   forallb (fun km => snd (ms_poll (snd km))) d).
+
+(* a sender that follows the Sink contract: poll_ready until Ready (at most `fuel` polls) *)
+Fixpoint wait_ready (fuel : nat) (d : dstate) : option dstate :=
+  match fuel with
+  | O => None
+  | S f => let '(d', r) := demux_poll d in if r then Some d' else wait_ready f d'
+  end.
+
+Fixpoint d_send (d : dstate) (k x : N) : option dstate :=
+  match d with
+  | [] => None
+  | (k', s) :: r =>
+      if k =? k' then Some ((k', ms_send s x) :: r)
+      else match d_send r k x with Some r' => Some ((k', s) :: r') | None => None end
+  end.
+
+Fixpoint bp_run (fuel : nat) (d : dstate) (items : list (N * N)) : option dstate :=
+  match items with
+  | [] => Some (map (fun km => (fst km, ms_take (snd km))) d)          (* poll_flush *)
+  | (k, x) :: r =>
+      match wait_ready fuel d with
+      | None => None
+      | Some d1 => match d_send d1 k x with Some d2 => bp_run fuel d2 r | None => None end
+      end
+  end.
+
+Fixpoint d_get (d : dstate) (k : N) : option msink :=
+  match d with [] => None | (k', s) :: r => if k =? k' then Some s else d_get r k end.
+
 (* ------------------------------------------------------------------ the generated closures *)
 
 (* serialize_bincode_with_type(is_demux = true):
